@@ -67,6 +67,7 @@ type Ctx struct {
 	useFP      bool
 	useQuant   bool
 	tagOf      map[string]int
+	structFull map[string]string // struct sort name -> fully qualified Go type (collision detection)
 	prog       *Program
 }
 
@@ -238,7 +239,15 @@ func (c *Ctx) sortOf(t types.Type) Sort {
 
 func (c *Ctx) structName(named *types.Named, st *types.Struct) string {
 	if named != nil {
-		return "S_" + c.typeName(named)
+		n := "S_" + c.typeName(named)
+		// two different packages may share a package name (sync vs internal/sync): disambiguate by path
+		full := types.TypeString(named, nil)
+		if prev, ok := c.structFull[n]; ok && prev != full {
+			n += fmt.Sprintf("_%x", hashString(full))
+		} else if c.structFull != nil {
+			c.structFull[n] = full
+		}
+		return n
 	}
 	return "S_anon_" + fmt.Sprintf("%x", hashString(types.TypeString(st, c.qual)))
 }
